@@ -1,8 +1,8 @@
 /-
   Driver.Transcript — parser for the harness' line protocol and canonical comparison of states.
 
-  line   := "T" seq now db maxmem policy "C" argc xhex* "R" kind xhex "S" state "E" state
-  state  := "M" mem "N" ndbs db*
+  line   := "T" seq now db conn maxmem policy      (conn: "e" = embedded, else connection id) "C" argc xhex* "R" kind xhex "S" state "E" state
+  state  := "M" mem "N" ndbs db* "C" nconns (id db)* "B" embeddedDb
   db     := "D" idx "K" nkeys (xkey exp val)* "V" nvol xhex*
   exp    := "-" | int(ms)
   val    := "n" | "s" xhex | "i" int | "f" xhex | "L" n xhex* | "H" n (xfield scalar)*
@@ -106,7 +106,12 @@ def pState : P State := do
   expect "N"
   let n ← pNat
   let dbs ← rep n pDb
-  pure ⟨dbs, mem⟩
+  expect "C"
+  let nc ← pNat
+  let conns ← rep nc (do let id ← pNat; let d ← pNat; pure (id, d))
+  expect "B"
+  let emb ← pNat
+  pure { dbs := dbs, mem := mem, conns := conns, embDb := emb }
 
 def pPolicy : P Policy := do
   match (← tok) with
@@ -138,6 +143,8 @@ def pTransition : P Transition := do
   let seq ← tok
   let now ← pInt
   let db ← pNat
+  let connTok ← tok
+  let conn : Option Nat := if connTok == "e" then none else connTok.toNat?
   let maxmem ← pNat
   let pol ← pPolicy
   expect "C"
@@ -155,7 +162,7 @@ def pTransition : P Transition := do
   let pre ← pState
   expect "E"
   let post ← pState
-  pure ⟨seq, { db := db, now := now, cfg := ⟨maxmem, pol⟩ }, cmd, obs, pre, post⟩
+  pure ⟨seq, { db := db, now := now, cfg := ⟨maxmem, pol⟩, conn := conn }, cmd, obs, pre, post⟩
 
 def parseLine (line : String) : Except String Transition :=
   let toks := (line.splitOn " ").filter (· ≠ "")
@@ -188,6 +195,7 @@ def renumberOids (s : State) : State :=
   { s with dbs := s.dbs.map fun (i, d) => (i, (⟨d.store.map fun (k, e) => (k, (⟨e.val.withOid (newId e.val.oid), e.exp⟩ : Entry)), d.vol⟩ : Db)) }
 
 def canonState (s : State) : State :=
-  renumberOids ⟨(s.dbs.map fun (i, d) => (i, canonDb d)).mergeSort (fun a c => a.1 ≤ c.1), s.mem⟩
+  renumberOids { s with dbs := (s.dbs.map fun (i, d) => (i, canonDb d)).mergeSort (fun a c => a.1 ≤ c.1),
+                        conns := s.conns.mergeSort (fun a c => a.1 ≤ c.1) }
 
 end Sugar.Driver
